@@ -80,7 +80,7 @@ func mk(t *Term) *Term {
 	switch t.Op {
 	case "const":
 		fmt.Fprintf(&sb, "%d", t.Val)
-	case "var", "bound":
+	case "var", "bound", "uf":
 		sb.WriteString(t.Name)
 	case "extract", "zext", "sext":
 		fmt.Fprintf(&sb, "%d,%d", t.P1, t.P2)
@@ -306,6 +306,18 @@ func Ite(c, a, b *Term) *Term {
 		}
 		if b.IsFalse() {
 			return And(c, a)
+		}
+	}
+	if a.S.Kind == SArray {
+		// keep array terms free of ite: merge at the element that differs
+		if a.Op == "store" && a.Args[0] == b {
+			return Store(b, a.Args[1], Ite(c, a.Args[2], Select(b, a.Args[1])))
+		}
+		if b.Op == "store" && b.Args[0] == a {
+			return Store(a, b.Args[1], Ite(c, Select(a, b.Args[1]), b.Args[2]))
+		}
+		if a.Op == "store" && b.Op == "store" && a.Args[0] == b.Args[0] && a.Args[1] == b.Args[1] {
+			return Store(a.Args[0], a.Args[1], Ite(c, a.Args[2], b.Args[2]))
 		}
 	}
 	// ite(c, x, ite(c, y, z)) = ite(c, x, z)
